@@ -9,6 +9,7 @@
 import Depccg.OpsMore
 import Depccg.Lazy
 import Depccg.Cli
+import Depccg.TreeScore
 import Depccg.OpsSearch
 
 namespace Depccg
@@ -157,6 +158,26 @@ def cliOp (seenOf : String → Option (Option (List (Cat × Cat)))) (unaryOf : S
         encExcept encStr (Cli.mainText G o lines tagCats scores)
     | _, _, _ => "bad-op"
   | _ => "bad-op"
+
+/-! ### `treescore`: the model score of a (real) tree, from the tree alone and the inputs
+
+  treescore <cats> <penalty> <n> <tags n*K> <deps n*(n+1)> <tree> -/
+def treeScoreOp (ts : List String) : String :=
+  match (do
+    let (cats, ts) ← pList pCat ts
+    let (pen, ts) ← pInt ts
+    let (n, ts) ← pNat ts
+    let (tags, ts) ← pRows n cats.length ts
+    let (deps, ts) ← pRows n (n + 1) ts
+    let (t, ts) ← pTree ts
+    if ts.isEmpty then pure (cats, pen, n, tags, deps, t) else none) with
+  | none => "bad-op"
+  | some (cats, pen, n, tags, deps, t) =>
+    let s : Sent := { n := n, tags := tags, deps := deps, roots := [], passes := [] }
+    let cfg : Cfg := { penalty := pen, pruning := 0, nbest := 1, maxStep := 0 }
+    match TreeLevel.treeScore cats s cfg t with
+    | some k => "ok " ++ toString k
+    | none => "none"
 
 end OpsLazy
 end Depccg
